@@ -227,6 +227,17 @@ func scheduleVariants(base *core.Scenario, seed uint64, n int) []*core.Scenario 
 func runSchedules(c *Check, seed uint64, i int, tier string, st *core.Stats) {
 	rs := RunSeed(seed, c.ID, i)
 	base := gen.ScenarioFor(c.ID, rs, profileFor(c.ID))
+	if c.ID == "C11" {
+		// a third of the fetches happen on an instance that has executed before (other facts)
+		r := core.NewRand(core.Mix(rs, 0x11))
+		if r.Chance(1, 3) {
+			g := &gen.G{R: r, Prof: profileFor("C10")}
+			base.Calls = []core.Call{{Mode: "execute", Facts: g.Facts(), MaxCycle: uint64(r.Range(1, 5))}}
+			if r.Chance(1, 2) {
+				base.Calls[0].Facts = base.Facts
+			}
+		}
+	}
 	n := 3
 	if tier == "thorough" {
 		n = 6
